@@ -24,5 +24,5 @@ theorem winMin_le (g : Int → Int) (h : Nat) (i : Int) (j : Int) (hj : -(h:Int)
     simp only [List.mem_range]; omega
   have := foldl_min_le_mem (List.range (2*h+1)) (g (i - h)) (fun k => g (i - h + k)) (j + h).toNat hk
   have e : i - (h:Int) + ((j + h).toNat : Int) = i + j := by omega
-  simpa [e] using this
+  rw [← e]; exact this
 #print axioms winMin_le
